@@ -80,7 +80,7 @@ type Rec struct {
 	ID        int
 	Partition string
 	Payload   []byte
-	DRR       appencryption.DataRowRecord // private deep copy
+	DRR       appencryption.DataRowRecord  // private deep copy
 	Orig      *appencryption.DataRowRecord // the object Encrypt returned, as the caller still holds it
 	JSON      []byte
 	IKID      string
@@ -103,7 +103,7 @@ type Event struct {
 	Rec       *Rec  // encrypt: the new record; decrypt: the record read
 	Err       error
 	Out       []byte                       // decrypt: the returned plaintext
-	Changed  string // a record object returned by an earlier encrypt differs from what it was when returned
+	Changed   string                       // a record object returned by an earlier encrypt differs from what it was when returned
 	ArgAfter  *appencryption.DataRowRecord // decrypt: the record the caller handed in, as it looks after the call
 	Detail    string
 	FreshSess bool
